@@ -9,7 +9,7 @@ import re
 import shutil
 import subprocess
 
-from ckl.errors import CklRuntimeError
+from ckl.errors import CklRuntimeError, CklSyntaxError
 from ckl.parser import parse_script
 from ckl.date import to_oa_date, to_date
 from ckl.values import (
@@ -3569,33 +3569,40 @@ class FuncS(ValueFunc):
             leading = True
             digits = -1
             base = 10
-            idx3 = variable.find("#")
-            if idx3 != -1:
-                spec = variable[idx3+1:]
-                variable = variable[0:idx3]
-                if spec.startswith("-"):
-                    leading = False
-                    spec = spec[1:]
-                if spec.startswith("0"):
-                    zeroes = True
-                    leading = False
-                    spec = spec[1:]
-                if spec.endswith("x"):
-                    base = 16
-                    spec = spec[0:-1]
-                idx4 = spec.find(".")
-                if idx4 == -1:
-                    digits = -1
-                    width = int(spec or "0")
-                else:
-                    digits = int(spec[idx4+1:] or "0")
-                    width = int(spec[0:idx4] or "0")
-            node = parse_script(variable, pos.filename)
-            value = node.evaluate(environment).asString().value
-            if base != 10:
-                value = f"{int(value):x}"
-            elif digits != -1:
-                value = str(round(float(value), digits))
+            try:
+                idx3 = variable.find("#")
+                if idx3 != -1:
+                    spec = variable[idx3+1:]
+                    variable = variable[0:idx3]
+                    if spec.startswith("-"):
+                        leading = False
+                        spec = spec[1:]
+                    if spec.startswith("0"):
+                        zeroes = True
+                        leading = False
+                        spec = spec[1:]
+                    if spec.endswith("x"):
+                        base = 16
+                        spec = spec[0:-1]
+                    idx4 = spec.find(".")
+                    if idx4 == -1:
+                        digits = -1
+                        width = int(spec or "0")
+                    else:
+                        digits = int(spec[idx4+1:] or "0")
+                        width = int(spec[0:idx4] or "0")
+                node = parse_script(variable, pos.filename)
+                value = node.evaluate(environment).asString().value
+                if base != 10:
+                    value = f"{int(value):x}"
+                elif digits != -1:
+                    value = str(round(float(value), digits))
+            except (ValueError, CklSyntaxError):
+                raise CklRuntimeError(
+                    ValueString("ERROR"),
+                    "Cannot interpolate {" + s[idx1+1:idx2] + "}",
+                    pos,
+                )
             while len(value) < width:
                 if leading:
                     value = " " + value
